@@ -59,6 +59,7 @@ def is_deepcopy(v):
 def run(repo, rep, tier):
     from .c12 import namespace_validated_first
     typed_property_transfer(repo, rep)
+    swallowed_error_does_not_cut_a_loop(repo, rep)
     from ..argorder import argument_order_rule
     argument_order_rule(repo, rep, 'C10.R14', tuple(
         m.relpath for m in repo.modules.values()
@@ -938,6 +939,113 @@ def untyped_transfers(func):
                  b.value.attr == 'properties'):
             out.append(n)
     return out
+
+
+def loops_cut_short(func_node):
+    """(try, loop, handler) where a handler that swallows a lookup error
+    (no raise in it) belongs to a try whose body contains a loop in which
+    that error can arise (a subscript read, .pop(), .remove(), .index(),
+    next()): the first failing item silently ends the whole loop"""
+    out = []
+    LOOKUP = ('KeyError', 'IndexError', 'LookupError', 'Exception',
+              'BaseException', 'ValueError', 'StopIteration')
+    for t in walk_no_nested(func_node):
+        if not isinstance(t, ast.Try):
+            continue
+        for h in t.handlers:
+            names = []
+            if h.type is None:
+                names = ['BaseException']
+            else:
+                els = h.type.elts if isinstance(h.type, ast.Tuple) \
+                    else [h.type]
+                names = [norm(e).split('.')[-1] for e in els]
+            if not any(nm in LOOKUP for nm in names):
+                continue
+            if any(isinstance(x, ast.Raise)
+                   for b in h.body for x in ast.walk(b)):
+                continue
+            for b in t.body:
+                for lp in ast.walk(b):
+                    if not isinstance(lp, (ast.For, ast.While)):
+                        continue
+                    # an inner try of the loop body that catches it itself
+                    # protects the items one by one
+                    inner = [x for s_ in lp.body for x in ast.walk(s_)
+                             if isinstance(x, ast.Try)]
+                    risky = []
+                    for s_ in lp.body:
+                        for x in ast.walk(s_):
+                            if any(x in list(ast.walk(i)) for i in inner):
+                                continue
+                            if isinstance(x, ast.Subscript) and \
+                                    isinstance(x.ctx, ast.Load) and \
+                                    not isinstance(x.slice, ast.Slice):
+                                risky.append(x)
+                            elif isinstance(x, ast.Call) and (
+                                    (isinstance(x.func, ast.Attribute) and
+                                     x.func.attr in ('pop', 'remove',
+                                                     'index')) or
+                                    dotted(x.func) == 'next'):
+                                risky.append(x)
+                    if risky:
+                        out.append((t, lp, h, risky[0]))
+    return out
+
+
+def swallowed_error_does_not_cut_a_loop(repo, rep):
+    """C10.R17: in the mock server a lookup error of one item is never
+    swallowed by a handler that sits *outside* the loop over the items.
+    `try: for name in names: x = d[name] ... except KeyError: pass` stops
+    at the first name that is missing: a read with PropertyList=['Absent',
+    'Present'] returns neither, although the stored instance has 'Present'
+    (the reference map returns exactly the requested properties the object
+    has); the same shape in a delete / enumerate loop leaves the remaining
+    items untouched.  Tolerating a missing item needs the try inside the
+    loop."""
+    r17 = rep.rule('C10.R17', 'no swallowing handler encloses a loop whose '
+                   'items can raise the swallowed lookup error')
+    nfun = 0
+    for m in repo.modules.values():
+        if not m.relpath.startswith('pywbem_mock/'):
+            continue
+        for f in m.all_funcs():
+            nfun += 1
+            for t, lp, h, x in loops_cut_short(f.node):
+                r17.ob(False, '%s|%s' % (f.qualname, norm(lp, 40)))
+                rep.finding(r17, f.qualname, norm(x, 50), 'loop-cut-short',
+                            m.relpath, lp.lineno,
+                            'the loop `%s` runs inside a try whose handler '
+                            '(%s) swallows the error %s can raise: the '
+                            'first item that fails ends the loop silently '
+                            'and the remaining items are not processed'
+                            % (norm(lp, 50).split(':')[0],
+                               norm(h.type, 30) if h.type is not None
+                               else 'bare except', norm(x, 40)))
+    r17.sites += 1
+    r17.ob(nfun > 200, 'functions-scanned', {'functions': nfun})
+    if nfun < 200:
+        raise AnalysisError('C10.R17: only %d functions scanned' % nfun)
+    probe = ast.parse(
+        'def f(d, names):\n'
+        '    out = {}\n'
+        '    try:\n'
+        '        for n in names:\n'
+        '            out[n] = d[n]\n'
+        '    except KeyError:\n'
+        '        pass\n'
+        '    return out\n').body[0]
+    safe = ast.parse(
+        'def f(d, names):\n'
+        '    out = {}\n'
+        '    for n in names:\n'
+        '        try:\n'
+        '            out[n] = d[n]\n'
+        '        except KeyError:\n'
+        '            pass\n'
+        '    return out\n').body[0]
+    if len(loops_cut_short(probe)) != 1 or loops_cut_short(safe):
+        raise AnalysisError('C10.R17 recogniser broken')
 
 
 def typed_property_transfer(repo, rep):
